@@ -89,6 +89,11 @@ def check_program(ctx, prog, script, rng, n_data=2, case_extra=None):
     if ex.reject is not None:
         # C03 decides must-reject programs; here we only need accepted programs
         ctx.count('accepted_although_reject_expected')
+        # ... but whatever is accepted must still carry every equation that was written
+        written = {e.lhs.name for st in prog.stmts if isinstance(st, gen.Eq) for e in [st]}
+        carried = {x.name for x in symbols if x.type.name == 'ENDOGENOUS' and x.code}
+        if written - carried:
+            ctx.violation('equation-dropped', f'the script was accepted, but the equation(s) for {sorted(written - carried)} are in no symbol: the built model would never evaluate them', case)
         return 'accepted-unexpectedly'
     try:
         typed = rng.random() < 0.6      # both class templates (with / without type hints) are the same model
@@ -382,7 +387,7 @@ def run_shard(ctx):
         ctx.seen('outcomes', out)
     # 2. random programs
     count = ctx.pick(300, 8000)
-    rp = gen.RandomPrograms(rng, max_depth=4, max_eqs=6, max_names=10, big_offsets=True, funcvar_rate=0.02,
+    rp = gen.RandomPrograms(rng, max_depth=4, max_eqs=6, max_names=10, big_offsets=True, funcvar_rate=0.06,
                             underscore_rate=0.01, lhs_offsets=(0, 0, 0, 0, 0, 0, 0, -1, 1))
     for k in range(count):
         prog = rp.program()
